@@ -869,6 +869,9 @@ func newHarness(t *testing.T, seed int64, pcap, acap int, rootReady bool) *harne
 	if h.maxBacklog > 3 {
 		h.maxBacklog = 3
 	}
+	if v := envInt("VERIF_MAXBACKLOG", 0); v > 0 {
+		h.maxBacklog = v // probe only: a backlog larger than the accepted window (notes/C20.md, observation)
+	}
 	return h
 }
 
